@@ -308,9 +308,17 @@ func c19(r *core.Run) {
 		}
 	}
 	r.Check(parseOK, "T1", fname, "response-arm-returns-ParseResponse(msg.Data)", p.InstrPos(sel), "a real response is parsed and returned", "no return of ParseResponse(msg.Data)")
-	// pre-response arm
+	// pre-response arm (its statements may live in private helpers of SendRequest)
 	var atoi, lookup, stop, newTimer ssa.CallInstruction
-	for _, c := range core.Calls(fn) {
+	reachedFromSelect := func(c ssa.Instruction) bool {
+		for _, l := range p.Lift(c, fn) {
+			if core.Reaches(sel, l) {
+				return true
+			}
+		}
+		return false
+	}
+	for _, c := range helperCalls(p, fn) {
 		cal := c.Common().StaticCallee()
 		if cal == nil {
 			continue
@@ -323,7 +331,7 @@ func c19(r *core.Run) {
 		case "(*time.Timer).Stop":
 			stop = c
 		case "time.NewTimer":
-			if core.Reaches(sel, c) {
+			if reachedFromSelect(c) {
 				newTimer = c
 			}
 		}
@@ -331,8 +339,12 @@ func c19(r *core.Run) {
 	if atoi == nil || lookup == nil || newTimer == nil {
 		r.Bad("T1", fname, "pre-response-arm", p.InstrPos(sel), fmt.Sprintf("pre-response handling incomplete: atoi=%v lookup=%v newTimer=%v", atoi != nil, lookup != nil, newTimer != nil))
 	} else {
+		// a helper that parses the pre-response: it performs the lookup or the conversion
+		parses := func(cal *ssa.Function) bool {
+			return cal != nil && (cal == lookup.Parent() || cal == atoi.Parent()) && cal != fn
+		}
 		allowed := func(e edgeCond) bool {
-			if !core.Reaches(sel, e.If) {
+			if e.If.Parent() == fn && !core.Reaches(sel, e.If) {
 				return true // decided before the wait loop (failure edges are judged by E1)
 			}
 			c := e.If.Cond
@@ -346,8 +358,13 @@ func c19(r *core.Run) {
 			if condOnSelect(c, sel) {
 				return true
 			}
-			if ex, ok := c.(*ssa.Extract); ok && ex.Tuple == lookup.Value() {
-				return true
+			if ex, ok := c.(*ssa.Extract); ok {
+				if ex.Tuple == lookup.Value() {
+					return true
+				}
+				if call, ok := ex.Tuple.(*ssa.Call); ok && parses(call.Common().StaticCallee()) {
+					return true // the parse helper's "ok" result
+				}
 			}
 			d := describeCond(e)
 			if strings.Contains(d, "Msg.Data") || strings.Contains(d, "extract:call:strconv.Atoi") {
@@ -368,51 +385,81 @@ func c19(r *core.Run) {
 			return false
 		}
 		var extra []string
-		for _, ed := range dominatingEdges(newTimer) {
+		for _, ed := range ctxEdges(p, newTimer, fn, 0) {
 			if !allowed(ed) {
 				extra = append(extra, describeCond(ed))
 			}
 		}
-		// duration = time.Duration(ms) * time.Millisecond
-		durOK := false
+		// duration = time.Duration(ms) * time.Millisecond, ms = the converted announcement
+		isAnnounced := func(v ssa.Value) bool {
+			bo, ok := v.(*ssa.BinOp)
+			if !ok || bo.Op != token.MUL {
+				return false
+			}
+			k, ok := core.ConstInt(bo.Y)
+			if !ok || k != 1000000 {
+				return false
+			}
+			ex, ok := core.Strip(bo.X).(*ssa.Extract)
+			return ok && ex.Tuple == atoi.Value() && ex.Index == 0
+		}
+		durOK := true
+		nAnn := 0
 		d := newTimer.Common().Args[0]
-		if bo, ok := d.(*ssa.BinOp); ok && bo.Op == token.MUL {
-			if k, ok := core.ConstInt(bo.Y); ok && k == 1000000 {
-				if ex, ok := core.Strip(bo.X).(*ssa.Extract); ok && ex.Tuple == atoi.Value() && ex.Index == 0 {
-					durOK = true
+		for _, dv := range paramArgs(p, d, 0) {
+			for _, lf := range valueLeaves(dv, nil, 0) {
+				if isAnnounced(lf.V) {
+					nAnn++
+					continue
 				}
+				if k, ok := core.ConstInt(lf.V); ok && k == 0 {
+					continue // the parse helper's "not a timeout" result, returned together with ok=false
+				}
+				durOK = false
 			}
 		}
+		durOK = durOK && nAnn > 0
 		r.Check(len(extra) == 0 && durOK, "T1", fname, "pre-response-restarts-timer-unconditionally", p.InstrPos(newTimer), "on a parsed timeout pre-response a timer of exactly the announced milliseconds is installed, with no further condition", fmt.Sprintf("the deadline is not always restarted with the announced duration: extra conditions %v, duration-is-announced-ms=%v", extra, durOK))
-		r.Check(stop != nil && core.Dominates(stop, newTimer), "T1", fname, "old-timer-stopped-before-replacement", posOf(p, stop), "the previous timer is stopped first", "the previous timer is not stopped before it is replaced")
-		// the new timer becomes the one selected on: stored to the timer variable (phi feeding the select) - check the select's channel derives from a phi including newTimer
+		r.Check(stop != nil && p.DominatesIn(fn, stop, newTimer), "T1", fname, "old-timer-stopped-before-replacement", posOf(p, stop), "the previous timer is stopped first", "the previous timer is not stopped before it is replaced")
+		// the new timer becomes the one selected on: the select's channel derives from a phi / cell
+		// including the new timer (possibly as the result of the helper that creates it)
 		usesNew := false
 		for _, st := range sel.States {
-			if strings.Contains(fieldChain(st.Chan, 0), "time.Timer.C") || true {
-				if chanFromTimerPhi(st.Chan, newTimer.Value(), 0) {
-					usesNew = true
-				}
+			if chanFromTimerPhi(st.Chan, newTimer.Value(), 0) {
+				usesNew = true
 			}
 		}
 		r.Check(usesNew, "T1", fname, "select-waits-on-the-new-timer", p.InstrPos(sel), "the loop waits on the replaced timer", "the new timer is created but the loop keeps waiting on the old one")
 		// callbacks
 		cbOK := false
-		for _, c := range core.Calls(fn) {
-			if core.IsDynamic(c) && len(c.Common().Args) == 1 && c.Common().Args[0] == d {
-				if u, ok := c.Common().Value.(*ssa.UnOp); ok {
-					if ia, ok := u.X.(*ssa.IndexAddr); ok {
-						if _, isParam := ia.X.(*ssa.Parameter); isParam && core.Reaches(newTimer, c) {
-							var ex2 []string
-							for _, ed := range dominatingEdges(c) {
-								if !allowed(ed) && !isRangeCond(ed) {
-									ex2 = append(ex2, describeCond(ed))
-								}
-							}
-							cbOK = len(ex2) == 0
-						}
-					}
+		for _, c := range helperCalls(p, fn) {
+			if !core.IsDynamic(c) || len(c.Common().Args) != 1 || c.Common().Args[0] != d {
+				continue
+			}
+			u, ok := c.Common().Value.(*ssa.UnOp)
+			if !ok {
+				continue
+			}
+			ia, ok := u.X.(*ssa.IndexAddr)
+			if !ok {
+				continue
+			}
+			fromParam := false
+			for _, src := range paramArgs(p, ia.X, 0) {
+				if prm, ok := src.(*ssa.Parameter); ok && prm.Parent() == fn {
+					fromParam = true
 				}
 			}
+			if !fromParam || !p.ReachesIn(fn, newTimer, c) {
+				continue
+			}
+			var ex2 []string
+			for _, ed := range ctxEdges(p, c, fn, 0) {
+				if !allowed(ed) && !isRangeCond(ed) {
+					ex2 = append(ex2, describeCond(ed))
+				}
+			}
+			cbOK = len(ex2) == 0
 		}
 		r.Check(cbOK, "T1", fname, "extension-callbacks-notified-with-duration", p.InstrPos(newTimer), "every callback is called with the announced duration", "extension callbacks are not all called with the announced duration")
 	}
@@ -518,6 +565,13 @@ func chanFromTimerPhi(ch ssa.Value, nt ssa.Value, d int) bool {
 	case *ssa.Phi:
 		for _, e := range x.Edges {
 			if e == nt || chanFromTimerPhi(e, nt, d+1) {
+				return true
+			}
+		}
+	case *ssa.Call:
+		// a helper that creates and returns the new timer
+		for _, lf := range valueLeaves(x, nil, 0) {
+			if lf.V == nt {
 				return true
 			}
 		}
